@@ -12,7 +12,7 @@ from pyvc import spec as S
 EXPLANATION = ("is_cap_used bit test, is_in_polygon (AND over used caps among the first n) for any number of caps/points, sign of "
                "cap_distance against 1 - x.p <= cm over reals; window lookup and set_use_caps as bounded stand-ins on the real code.")
 UNDECIDED = ["floating-point behaviour at a cap's own centre (x.p one ulp above 1 => arccos NaN) and on cap boundaries",
-             "FITS / .ply readers, ManglePolygon constructors, window_read(balkans) slicing: not yet under contract (trusted, A5)",
+             "FITS / .ply readers, ManglePolygon constructors: trusted (A5); window_read(balkans) assembly only as a bounded stand-in with the FITS reader replaced by in-memory tables",
              "cm < 0: boundary points (1 - x.p == |cm|) count as inside, following mangle's own convention (closed complement)"]
 
 
@@ -433,3 +433,110 @@ class SetUseCaps(FunctionContract):
             cm = np.array([rng.choice([1.0, 1.0, -1.0, 0.5]) for _ in range(nc)])
             yield dict(geom=dict(nc=nc, x=x, cm=cm), old=rng.getrandbits(nc), index_list=[rng.randint(0, nc - 1) for _ in range(rng.randint(0, 3))],
                        add=rng.random() < 0.5, allow_doubles=rng.random() < 0.3, allow_neg_doubles=rng.random() < 0.3)
+
+
+# ---------------------------------------------------------------------------
+# window_read(balkans=True): polygons assembled from the polygon table (blist) and the cap table (bcaps); bounded stand-in
+# ---------------------------------------------------------------------------
+from pyvc.numeric import NumericJob as _NumericJob
+
+
+@register("C12")
+class WindowReadBalkans(_NumericJob):
+    name = "window_read_balkans"
+    target = "pydl.photoop.window:window_read"
+    bound = ("1..5 polygons of 1..4 caps, cap tables of up to 24 rows, ICAP offsets in storage order / permuted / with gaps / shared between polygons; "
+             "Table.read replaced by in-memory tables (FITS reader trusted); 8 probe points per case")
+    KINDS = ("each_polygon_gets_the_caps_its_ICAP_and_NCAPS_select", "scalar_columns_copied_and_all_caps_used",
+             "lookup_agrees_with_polygons_built_directly_from_the_tables", "only_requested_tables_returned")
+    NQ, NT = 150, 1500
+
+    def _cases(self, rng, n):
+        from astropy.table import Table
+        for rep in range(n):
+            npoly = rng.randint(1, 5)
+            ncaps = [rng.randint(1, 4) for _ in range(npoly)]
+            layout = rng.choice(["in_order", "permuted", "gaps", "shared"])
+            order = list(range(npoly))
+            if layout != "in_order":
+                rng.shuffle(order)
+            icap = [0] * npoly
+            pos = 0
+            for k in order:
+                if layout == "gaps":
+                    pos += rng.randint(0, 2)
+                icap[k] = pos
+                pos += ncaps[k]
+            if layout == "shared" and npoly > 1:
+                a, b = rng.sample(range(npoly), 2)
+                icap[a] = icap[b]
+            total = max(i + m for i, m in zip(icap, ncaps)) + rng.randint(0, 2)
+            X = np.array([[rng.gauss(0, 1) for _ in range(3)] for _ in range(total)])
+            X /= np.sqrt((X ** 2).sum(axis=1))[:, None]
+            CM = np.array([rng.choice([-1, 1]) * rng.uniform(0.2, 1.8) for _ in range(total)])
+            bl = Table()
+            bl["IPRIMARY"] = np.array([rng.randint(0, 900) for _ in range(npoly)], dtype=np.int32)
+            bl["IBINDX"] = np.array([rng.randint(0, 900) for _ in range(npoly)], dtype=np.int32)
+            bl["ICAP"] = np.array(icap, dtype=np.int32)
+            bl["NCAPS"] = np.array(ncaps, dtype=np.int32)
+            bl["WEIGHT"] = np.array([rng.uniform(0, 1) for _ in range(npoly)])
+            bl["STR"] = np.array([rng.uniform(0, 0.1) for _ in range(npoly)])
+            bc = Table()
+            bc["X"] = X
+            bc["CM"] = CM
+            pts = np.array([[rng.gauss(0, 1) for _ in range(3)] for _ in range(8)])
+            pts /= np.sqrt((pts ** 2).sum(axis=1))[:, None]
+            yield dict(bl=bl, bc=bc, pts=pts, want=(rng.random() < 0.5, rng.random() < 0.5),
+                       inp=dict(rep=rep, layout=layout, ICAP=icap, NCAPS=ncaps, cap_rows=total))
+
+    def _check(self, c):
+        import os
+        from unittest import mock
+        import pydl.photoop.window as W
+        import pydl.pydlutils.mangle as M
+        bl, bc, pts = c["bl"], c["bc"], c["pts"]
+        X0, CM0 = np.array(bc["X"]), np.array(bc["CM"])
+
+        def reader(fn, hdu=1):
+            base = os.path.basename(fn)
+            if base == "window_blist.fits":
+                return bl.copy()
+            if base == "window_bcaps.fits":
+                return bc.copy()
+            raise IOError(fn)
+        wb, wc = c["want"]
+        with mock.patch.dict(os.environ, {"PHOTO_RESOLVE": "/nonexistent"}), mock.patch.object(W.Table, "read", staticmethod(reader)):
+            r = W.window_read(balkans=True, blist=wb, bcaps=wc)
+        bad = []
+        if set(r) != {"balkans"} | ({"blist"} if wb else set()) | ({"bcaps"} if wc else set()):
+            bad.append(("only_requested_tables_returned", "keys %s for blist=%s bcaps=%s" % (sorted(r), wb, wc)))
+        bk = r["balkans"]
+        if len(bk) != len(bl):
+            return bad + [("each_polygon_gets_the_caps_its_ICAP_and_NCAPS_select", "%d polygons for %d rows" % (len(bk), len(bl)))]
+        ref = M.PolygonList()
+        for k in range(len(bl)):
+            i0, m = int(bl["ICAP"][k]), int(bl["NCAPS"][k])
+            if not (np.array_equal(np.asarray(bk[k]["XCAPS"])[:m], X0[i0:i0 + m]) and np.array_equal(np.asarray(bk[k]["CMCAPS"])[:m], CM0[i0:i0 + m])):
+                bad.append(("each_polygon_gets_the_caps_its_ICAP_and_NCAPS_select", "polygon %d (ICAP %d, NCAPS %d) carries other caps" % (k, i0, m)))
+            if not (int(bk[k]["NCAPS"]) == m and int(bk[k]["USE_CAPS"]) == 2 ** m - 1 and int(bk[k]["IFIELD"]) == int(bl["IPRIMARY"][k])
+                    and int(bk[k]["PIXEL"]) == int(bl["IBINDX"][k]) and float(bk[k]["WEIGHT"]) == float(bl["WEIGHT"][k]) and float(bk[k]["STR"]) == float(bl["STR"][k])):
+                bad.append(("scalar_columns_copied_and_all_caps_used", "polygon %d" % k))
+            ref.append(M.ManglePolygon(x=X0[i0:i0 + m].copy(), cm=CM0[i0:i0 + m].copy()))
+        in_r, ix_r = M.is_in_window(ref, pts)
+        # independent evaluation of the definition: first polygon all of whose caps contain the point
+        exp = []
+        for p in pts:
+            hit = -1
+            for k in range(len(bl)):
+                i0, m = int(bl["ICAP"][k]), int(bl["NCAPS"][k])
+                if all(((1.0 - X0[j] @ p) <= CM0[j]) if CM0[j] >= 0 else ((1.0 - X0[j] @ p) >= -CM0[j]) for j in range(i0, i0 + m)):
+                    hit = k
+                    break
+            exp.append(hit)
+        in_b, ix_b = M.is_in_window(bk, pts)
+        conv = M.PolygonList([M.ManglePolygon(bk[k]) for k in range(len(bk))])
+        in_c, ix_c = M.is_in_window(conv, pts)
+        for lab, ix, inn in (("balkans", ix_b, in_b), ("converted balkans", ix_c, in_c), ("direct polygons", ix_r, in_r)):
+            if list(np.asarray(ix)) != exp or list(np.asarray(inn)) != [e >= 0 for e in exp]:
+                bad.append(("lookup_agrees_with_polygons_built_directly_from_the_tables", "%s give %s, the cap tables define %s" % (lab, list(np.asarray(ix)), exp)))
+        return bad
